@@ -629,6 +629,17 @@ def scorer_guard(ctx):
             names = []
             for opnd in (o[1]["a"], o[1]["b"]):
                 oo = fa.origin(opnd)
+                if oo[0] == "place" and op_place(opnd) is not None:
+                    # a member of `(checks.len(), costs.len())`, possibly through copies of the member
+                    from mir import through_aggregates
+                    pl_ = op_place(opnd)
+                    for _ in range(4):
+                        d_ = fa.single_def(pl_["l"]) if not pl_["p"] else None
+                        if d_ and d_[2] == "assign" and d_[3]["k"] == "use" and op_place(d_[3]["op"]) is not None:
+                            pl_ = op_place(d_[3]["op"])
+                        else:
+                            break
+                    oo = fa.origin(through_aggregates(fa, pl_))
                 if oo[0] == "call" and any(p.endswith("::len") for p in
                                            [strip_generics(x) for x in callee_paths(oo[2])]):
                     names.append(named_local_of(fa, oo[2]["args"][0]))
